@@ -507,6 +507,147 @@ def to_choices(sc, r):
     return ch
 
 
+def builtin_transport_sessions(base):
+    """The gateway context over the built-in stream transport kinds (TCP / serial share
+    StreamTransport): whatever ends the session — a clean exit, the stream ending between two
+    lines or inside a line while listening, a read failure — leaving the context closes the
+    stream exactly once, saves the final registry and leaves no task behind."""
+    from aiomysensors.transport import StreamTransport
+    from props.c17 import FakeWriter
+
+    fs, n = [], 0
+    for kind in ("clean-exit", "eof-at-line-boundary", "eof-inside-line", "read-oserror"):
+        for with_persistence in (False, True):
+            n += 1
+            loop = VLoop()
+            loop.set_default_executor(InlineExecutor())
+            path = os.path.join(base, f"bt{n}.json")
+            w = FakeWriter()
+            holder = {}
+
+            class T(StreamTransport):
+                async def _open_connection(self):
+                    rd = asyncio.StreamReader()
+                    holder["rd"] = rd
+                    return rd, w
+
+            async def main():
+                gw = Gateway(T(), Config(persistence_file=path if with_persistence else None))
+                exc = None
+                try:
+                    async with gw:
+                        rd = holder["rd"]
+                        rd.feed_data(b"1;255;0;0;17;2.0\n")
+                        if kind == "eof-at-line-boundary":
+                            rd.feed_eof()
+                        elif kind == "eof-inside-line":
+                            rd.feed_data(b"1;255;3;0;0")
+                            rd.feed_eof()
+                        elif kind == "read-oserror":
+                            rd.set_exception(ConnectionResetError("reset by peer"))
+                        agen = gw.listen()
+                        await agen.__anext__()
+                        if kind != "clean-exit":
+                            await agen.__anext__()
+                        await agen.aclose()
+                except BaseException as e:  # noqa: BLE001
+                    exc = e
+                await asyncio.sleep(0)
+                left = [t for t in asyncio.all_tasks() if t is not asyncio.current_task() and not t.done()]
+                return exc, left, sorted(gw.nodes)
+
+            try:
+                exc, left, nodes = loop.run_until_complete(main())
+            finally:
+                loop.close()
+            want_exc = {"clean-exit": type(None), "eof-at-line-boundary": ex.TransportReadError, "eof-inside-line": ex.TransportReadError,
+                        "read-oserror": ex.TransportFailedError}[kind]
+            problems = []
+            if not isinstance(exc, want_exc):
+                problems.append(f"{type(exc).__name__ if exc else 'no error'} left the context (expected {want_exc.__name__})")
+            if w.closed != 1:
+                problems.append(f"the stream was closed {w.closed} time(s) when the context was left")
+            if left:
+                problems.append(f"{len(left)} task(s) still running")
+            if with_persistence:
+                try:
+                    with open(path) as f:
+                        saved = sorted(int(k) for k in json.load(f))
+                except Exception as e:  # noqa: BLE001
+                    saved = f"unreadable ({type(e).__name__})"
+                if saved != nodes:
+                    problems.append(f"the file holds nodes {saved}, the registry {nodes}")
+            for pr in problems:
+                fs.append({"kind": "oracle", "sig": "C16:builtin-transport",
+                           "desc": f"StreamTransport session ending by {kind} (persistence {'on' if with_persistence else 'off'}): {pr}",
+                           "case": {"kind": kind, "persistence": with_persistence}})
+    seen = {}
+    for f in fs:
+        seen.setdefault(f["desc"][:60], f)
+    return list(seen.values())[:3], n
+
+
+def two_gateways(base):
+    """Two gateways with persistence on one event loop: one leaves (or fails to connect) while the
+    other stays entered; the other one keeps saving every 15 minutes and saves when it leaves."""
+    fs, n = [], 0
+    for first in ("leaves", "connect-fails"):
+        n += 1
+        loop = VLoop()
+        loop.set_default_executor(InlineExecutor())
+        log: list = []
+        pa, pb = os.path.join(base, f"tg{n}a.json"), os.path.join(base, f"tg{n}b.json")
+        mt = {}
+
+        async def main():
+            ta = LTransport(log, ConnectionError("no broker") if first == "connect-fails" else None, None, 0)
+            tb = LTransport(log, None, None, 0)
+            ga, gb = Gateway(ta, Config(persistence_file=pa)), Gateway(tb, Config(persistence_file=pb))
+            async with gb:
+                gb.nodes[1] = Node(1, 17, "2.0")
+                try:
+                    async with ga:
+                        ga.nodes[2] = Node(2, 17, "2.0")
+                        await asyncio.sleep(5)
+                except ConnectionError:
+                    pass
+                # B stays entered for an hour; its registry changes after every tick
+                for k in range(4):
+                    await asyncio.sleep(SAVE_INTERVAL)
+                    gb.nodes[10 + k] = Node(10 + k, 17, "2.0")
+                    await asyncio.sleep(1)
+                    mt[k] = os.path.getmtime(pb), sorted(gb.nodes)
+                    try:
+                        with open(pb) as f:
+                            mt[k] = sorted(int(x) for x in json.load(f)), sorted(gb.nodes)
+                    except Exception as e:  # noqa: BLE001
+                        mt[k] = f"unreadable {type(e).__name__}", sorted(gb.nodes)
+                await asyncio.sleep(SAVE_INTERVAL + 1)
+                try:
+                    with open(pb) as f:
+                        mt["tick"] = sorted(int(x) for x in json.load(f)), sorted(gb.nodes)
+                except Exception as e:  # noqa: BLE001
+                    mt["tick"] = f"unreadable {type(e).__name__}", sorted(gb.nodes)
+            await asyncio.sleep(0)
+            return [t for t in asyncio.all_tasks() if t is not asyncio.current_task() and not t.done()]
+
+        try:
+            left = loop.run_until_complete(main())
+        finally:
+            loop.close()
+        saved, reg = mt["tick"]
+        if saved != reg:
+            fs.append({"kind": "oracle", "sig": "C16:two-gateways",
+                       "desc": f"gateway A {first} while gateway B stays entered: 15 minutes after B's last change its file holds {saved}, its registry {reg} (B's periodic saver stopped)",
+                       "case": {"first": first}})
+        if left:
+            fs.append({"kind": "oracle", "sig": "C16:two-gateways", "desc": f"gateway A {first}, B left later: {len(left)} task(s) still running", "case": {"first": first}})
+    seen = {}
+    for f in fs:
+        seen.setdefault(f["desc"][:50], f)
+    return list(seen.values())[:2], n
+
+
 def run(ctx, model_available=True):
     rng = rng_for(ctx.seed, "C16")
     base = tempfile.mkdtemp(prefix="amsverif_c16_")
@@ -618,12 +759,18 @@ def run(ctx, model_available=True):
                 failures.append({"kind": "corr", "sig": None,
                                  "desc": f"lifecycle model and implementation differ for schedule {' '.join(ch)}: model '{mout}', implementation exc={impl_exc} disc={impl_disc} saves={impl_saves}",
                                  "case": {k: v for k, v in sc.items() if not k.startswith("_")}})
+    bf, bn = builtin_transport_sessions(base)
+    failures.extend(bf)
+    dist["builtin_transport_sessions"] = bn
+    tf, tn = two_gateways(base)
+    failures.extend(tf)
+    dist["two_gateway_runs"] = tn
     shutil.rmtree(base, ignore_errors=True)
     seen = {}
     for f in failures:
         seen.setdefault((f["kind"], f["sig"]), f)
     return {
-        "evaluations": dist["scenarios"],
+        "evaluations": dist["scenarios"] + bn + tn,
         "distinct_nontrivial": len(kinds),
         "rule": "the real Gateway context with persistence on a virtual-clock event loop with an inline executor: the owning task cancelled (task.cancel()) or timed out (asyncio.timeout) in the body 0..13 iterations after entering and after 900 / 1800 s; a second session on the same Gateway object (after a clean exit, a raising body, a failed connect; file edited between the sessions or not; 0 s .. 2 h); exit after k = 0..12 loop iterations x {clean, body raises, disconnect raises, both, connect raises} x {instant, slow} transport, and bodies lasting 1 s .. 3 h of virtual time; observed: exception leaving the context, tasks alive afterwards, file vs final registry, disconnect count, virtual times of the periodic saves; distinct = (k, wait, fault flags, saver cancelled inside a save?, exception class)",
         "samples": [str({k: v for k, v in scs[7].items() if k in ('k', 'wait', 'connect_fails', 'body_raises', 'disconnect_fails')})],
